@@ -17,6 +17,11 @@ func init() {
 	registerRule(&RuleDef{ID: "A4", Min: 5, Doc: "committed rows and reference index are written only by Commit/CreateDatabase; Commit is only called by OvsdbServer.Transact", Run: ruleA4})
 	registerRule(&RuleDef{ID: "A5", Min: 15, Doc: "no error result is dropped on the commit path", Run: ruleA5})
 	registerRule(&RuleDef{ID: "T-SCAN", Min: 2, Doc: "notify and commit are dominated by the scan of the results for an error", Run: ruleTSCAN})
+	registerRule(&RuleDef{ID: "A3-REPAIR", Min: 3, Doc: "a model field consumed by an in-place algorithm is written back with SetField before the operation completes", Run: ruleA3REPAIR})
+	registerRule(&RuleDef{ID: "A3-TABLE", Min: 3, Doc: "the only parameter written through reflect by each function of package updates is its reviewed in-place argument", Run: ruleA3TABLE})
+	registerRule(&RuleDef{ID: "S-PURE", Min: 6, Doc: "building a notification only writes containers created for it", Run: ruleSPURE})
+	registerRule(&RuleDef{ID: "X5", Min: 6, Doc: "set-modifying helpers receive live index sets only inside Create/Update/Delete", Run: ruleX5})
+	registerRule(&RuleDef{ID: "R-REPORT", Min: 10, Doc: "every outcome assigned to an operation's result reaches results[i]", Run: ruleRREPORT})
 	// --- E3 codecs
 	registerRule(&RuleDef{ID: "K1", Min: 30, Doc: "keyed codec pairs agree member by member (pass also emits K2)", Run: ruleK12})
 	registerRule(&RuleDef{ID: "K2", Min: 15, Doc: "positional codec pairs agree position by position (emitted by the K1 pass)", Run: noop})
@@ -180,4 +185,50 @@ func init() {
 		Explanation: "Decides the parts of C20 that are Go code: (GEN-ATOM) the Go type name the generator emits for each atomic type equals the type the mapper expects (resolved through the reflect.TypeOf initialisers of NativeTypeFromAtomic); (GEN-SHAPE) generator and mapper decide pointer / scalar / slice on the same (min,max) tests; (E6) fieldType and AtomicType handle every column type; (D-ORDER) in package modelgen every range over a map only collects keys that are sorted before use, so output is identical from run to run; (G-COPY) the checked-in generated model's DeepCopyInto/Equals cover every field.",
 		NotCovered: "that generated code compiles, naming/initialism handling, everything inside the text/template source (a string, not Go syntax)",
 	})
+}
+
+func init() {
+	// rules added after testing against independently seeded changes (DESIGN.md §8b)
+	add := func(prop string, ids ...string) {
+		pd := props[prop]
+		for _, id := range ids {
+			dup := false
+			for _, x := range pd.Rules {
+				if x == id {
+					dup = true
+				}
+			}
+			if !dup {
+				pd.Rules = append(pd.Rules, id)
+			}
+		}
+	}
+	registerRule(&RuleDef{ID: "T-DELROWS", Min: 1, Doc: "rows read from the database inside a transaction are overlaid with the transaction's deletions", Run: ruleTDELROWS})
+	registerRule(&RuleDef{ID: "DEL-TRACK", Min: 2, Doc: "recording a row as deleted does not depend on the transaction cache contents", Run: ruleDELTRACK})
+	registerRule(&RuleDef{ID: "X6", Min: 4, Doc: "index values are always computed from indexSpec.columns", Run: ruleX6})
+	registerRule(&RuleDef{ID: "K5", Min: 8, Doc: "the short encoding of a base type is refused when any constraint member is set", Run: ruleK5})
+	registerRule(&RuleDef{ID: "N-ALLOPS", Min: 2, Doc: "both passes of ExpandNamedUUIDs start at the first operation", Run: ruleNALLOPS})
+	registerRule(&RuleDef{ID: "N-ITER", Min: 1, Doc: "api.Create carries nothing but the index and the result list between models", Run: ruleNITER})
+	registerRule(&RuleDef{ID: "PM-ALL", Min: 2, Doc: "the notification loops have no early exit", Run: rulePMALL})
+	registerRule(&RuleDef{ID: "D-WRITE", Min: 1, Doc: "generated files are written whole (truncating)", Run: ruleDWRITE})
+	add("C01", "A3-REPAIR", "S-PURE")
+	add("C03", "T-DELROWS")
+	add("C04", "L4", "T-SCAN")
+	add("C06", "DEL-TRACK", "T-DELROWS")
+	add("C05", "X6")
+	add("C08", "X6")
+	add("C07", "PM-ALL")
+	add("C17", "PM-ALL")
+	add("C01", "PM-ALL")
+	add("C12", "K5")
+	add("C15", "N-ALLOPS", "N-ITER")
+	add("C19", "T-SCAN", "N-ALLOPS")
+	add("C20", "D-WRITE")
+	add("C02", "R-REPORT", "A3")
+	add("C03", "A3-REPAIR", "R-REPORT")
+	add("C05", "X5")
+	add("C07", "S-PURE")
+	add("C08", "X5")
+	add("C10", "A3-REPAIR", "A3-TABLE")
+	add("C13", "X5", "S-PURE")
 }
